@@ -185,12 +185,20 @@ func newProdHarness(c *mCase) *prodHarness {
 	}
 	if c.Mode == "async" {
 		h.async = NewAsyncProducer(h.rep, cfg)
-		h.async.SetPartitions(map[string]int32{"ta": int32(c.Npa)})
-		h.async.SetDefaultPartitions(int32(c.Npd))
+		if c.Npa > 0 {
+			h.async.SetPartitions(map[string]int32{"ta": int32(c.Npa)})
+		}
+		if c.Npd != 32 { // 32 = the default of NewTopicConfig is left alone
+			h.async.SetDefaultPartitions(int32(c.Npd))
+		}
 	} else {
 		h.sync = NewSyncProducer(h.rep, cfg)
-		h.sync.SetPartitions(map[string]int32{"ta": int32(c.Npa)})
-		h.sync.SetDefaultPartitions(int32(c.Npd))
+		if c.Npa > 0 {
+			h.sync.SetPartitions(map[string]int32{"ta": int32(c.Npa)})
+		}
+		if c.Npd != 32 { // 32 = the default of NewTopicConfig is left alone
+			h.sync.SetDefaultPartitions(int32(c.Npd))
+		}
 	}
 	return h
 }
@@ -560,6 +568,15 @@ func runProducerCase(rec *vRec, c *mCase, conc bool) {
 		case "send":
 			mid++
 			h.send(rec, mid, op)
+		case "setparts":
+			// one more TopicConfig.SetPartitions call on the same mock (the async mock is idle: every
+			// earlier message was waited for)
+			if h.async != nil {
+				h.async.SetPartitions(map[string]int32{op.Topic: int32(op.N)})
+			} else {
+				h.sync.SetPartitions(map[string]int32{op.Topic: int32(op.N)})
+			}
+			rec.Ev("setparts", kv{"topic": op.Topic, "n": op.N})
 		case "batch":
 			h.batch(rec, mid+1, c, op.N)
 			mid += op.N
